@@ -148,6 +148,94 @@ class QVector(FunctionContract):
         return (False, {})
 
 
+class QVectorOfEachMeasure(Lemma):
+    """create_q_vector (real body; 5-state axis with symbolic states, real CTMCGrid constructor) called for a SECOND measure on
+    the same grid object: the rates are the cell masses of THAT measure -- nothing computed for the first measure (kept on the
+    grid, on the function, in a module-level table) may come back."""
+    prop = "C01"
+    name = "property:rates-belong-to-their-measure"
+
+    def prove(self, vc, case):
+        it = vc.interp
+        MUA = z3.Function("MU_measure_A", z3.RealSort(), z3.RealSort(), z3.RealSort())
+        MUB = z3.Function("MU_measure_B", z3.RealSort(), z3.RealSort(), z3.RealSort())
+
+        def integ(it_, f, b):
+            F = MUA if b["self"].fields["tag"] == "A" else MUB
+            return Sym(F(as_real_term(lift(b["a"])), as_real_term(lift(b["b"]))), "r")
+        it.hooks[LM + "LevyMeasure.integrate"] = integ
+        xs = vc.reals("state", 5)
+        h = vc.real("h")
+        vc.assume(And(xs[0] < xs[1], xs[1] < 0, xs[2] == 0, 0 < xs[3], xs[3] < xs[4], h > 0, xs[1] == -h, xs[3] == h))
+        grid = vc.new(SP + "CTMCGrid", h, 2, [np.array(xs, dtype=object)])
+        fn = it.get_function(SF + "create_q_vector")
+        qa = list(np.ravel(np.asarray(it.call(fn, [vc.obj(LM + "LevyMeasure", tag="A"), grid], {}), dtype=object)))
+        qb = list(np.ravel(np.asarray(it.call(fn, [vc.obj(LM + "LevyMeasure", tag="B"), grid], {}), dtype=object)))
+        mid = lambda a, b: (a + b) / 2
+        cells = [(xs[0], mid(xs[0], xs[1])), (mid(xs[0], xs[1]), mid(xs[1], xs[2])), None, (mid(xs[2], xs[3]), mid(xs[3], xs[4])), (mid(xs[3], xs[4]), xs[4])]
+        want = lambda F: [0.0 if c is None else Sym(F(as_real_term(lift(c[0])), as_real_term(lift(c[1]))), "r") for c in cells]
+        vc.check(self.name + "::first-measure:rates-are-its-cell-masses", len(qa) == 5 and And(*[compare(a, b, "==") for a, b in zip(qa, want(MUA))]))
+        vc.check(self.name + "::second-measure-on-the-same-grid:rates-are-ITS-cell-masses", len(qb) == 5 and And(*[compare(a, b, "==") for a, b in zip(qb, want(MUB))]))
+
+    def replay(self, model, clause, case):
+        from contracts import battery
+        from rpylib.distribution.samplingfactory import create_q_vector
+        from rpylib.grid.spatial import CTMCUniformGrid
+        ms = battery.models(("hem", "merton"))
+        grid = CTMCUniformGrid.create_from_fixed_nb_of_points(h=0.1, nb_of_points=7)
+        qa = np.asarray(create_q_vector(ms["hem"].levy_triplet.nu, grid), float)
+        qb = np.asarray(create_q_vector(ms["merton"].levy_triplet.nu, grid), float)
+        fresh = np.asarray(create_q_vector(ms["merton"].levy_triplet.nu, CTMCUniformGrid.create_from_fixed_nb_of_points(h=0.1, nb_of_points=7)), float)
+        return (not np.allclose(qb, fresh, rtol=1e-12, atol=0), {"grid": "7 states, h = 0.1, used for HEM first", "merton_rates_on_the_used_grid": qb.tolist(), "merton_rates_on_a_fresh_grid": fresh.tolist()})
+
+
+class AdaptedTreeProbabilityOfEachSampler(Lemma):
+    """BinarySearchTreeAdapted1D._compute_probability (real body, real constructor; two samplers with different models and
+    intensities on the same grid): the probability of an interval asked of the SECOND sampler is its own model's mass over
+    its own intensity, also for the very interval the first sampler was asked before (instance-level, class-level or
+    module-level memo alike); asked twice of the same sampler it is the same value."""
+    prop = "C01"
+    name = "property:adapted-tree-interval-probability-belongs-to-its-sampler"
+
+    def prove(self, vc, case):
+        it = vc.interp
+        BA = "rpylib.distribution.variate.binarysearchtreeadapted:"
+        MASS = z3.Function("MASS_model", z3.IntSort(), z3.RealSort(), z3.RealSort(), z3.RealSort())
+        big = 10 ** 9
+        e = lambda v: as_real_term(lift(-big if (not is_sym(v) and v == -INF) else (big if (not is_sym(v) and v == INF) else v)))
+        it.hooks[LM + "LevyModel.mass"] = lambda it_, f, b: Sym(MASS(z3.IntVal(b["self"].fields["tag"]), e(b["a"]), e(b["b"])), "r")
+        it.hooks["rpylib.distribution.univariate.uniform:Uniform.__init__"] = lambda it_, f, b: None
+        xs = vc.reals("state", 5)
+        h = vc.real("h")
+        vc.assume(And(xs[0] < xs[1], xs[1] < 0, xs[2] == 0, 0 < xs[3], xs[3] < xs[4], h > 0, xs[1] == -h, xs[3] == h))
+        grid = vc.new(SP + "CTMCGrid", h, 2, [np.array(xs, dtype=object)])
+        lam = vc.reals("intensity", 2)
+        vc.assume(And(lam[0] > 0, lam[1] > 0))
+        mk = lambda k: vc.new(BA + "BinarySearchTreeAdapted1D", vc.obj(LM + "LevyModel", tag=k), grid, lam[k])
+        s0, s1 = mk(0), mk(1)
+        a, b = vc.real("a"), vc.real("b")
+        vc.assume(a <= b)
+        p0 = vc.method(s0, "_compute_probability", a, b)
+        p1 = vc.method(s1, "_compute_probability", a, b)
+        p1_again = vc.method(s1, "_compute_probability", a, b)
+        m = lambda k: Sym(MASS(z3.IntVal(k), as_real_term(a), as_real_term(b)), "r")
+        vc.check(self.name + "::first-sampler", compare(p0 * lam[0], m(0), "=="))
+        vc.check(self.name + "::second-sampler-on-the-same-interval", compare(p1 * lam[1], m(1), "=="))
+        vc.check(self.name + "::asked-twice", compare(p1_again, p1, "=="))
+
+    def replay(self, model, clause, case):
+        from contracts import battery
+        from rpylib.grid.spatial import CTMCUniformGrid
+        from rpylib.distribution.variate.binarysearchtreeadapted import BinarySearchTreeAdapted1D
+        ms = battery.models(("hem", "merton"))
+        grid = CTMCUniformGrid.create_from_fixed_nb_of_points(h=0.1, nb_of_points=7)
+        s0 = BinarySearchTreeAdapted1D(ms["hem"], grid, 3.0)
+        s1 = BinarySearchTreeAdapted1D(ms["merton"], grid, 4.0)
+        p0, p1 = float(s0._compute_probability(0.05, 0.15)), float(s1._compute_probability(0.05, 0.15))
+        want = float(ms["merton"].mass(0.05, 0.15)) / 4.0
+        return (abs(p1 - want) > 1e-12 * max(1.0, abs(want)), {"interval": [0.05, 0.15], "first_sampler(hem)": p0, "second_sampler(merton)": p1, "merton_mass_over_its_intensity": want})
+
+
 class Tiling(Lemma):
     """the cells tile [ax[0], ax[-1]] minus the central cell, each state inside its own cell (pure spec lemma, all n)"""
     prop = "C01"
@@ -705,7 +793,7 @@ class ModelTruncateMass(Lemma):
         return (abs(got - want) > 1e-8, {"truncations_applied": bounds[::-1], "interval": [a, b], "mass_after": got, "mass_of_the_intersection": want})
 
 
-UNITS = [QVector(), Tiling(), Telescoping(), Intensity1d(), IntensityNd(), JumpVector(), InversionProbability(), AdjacentImpliesTransitive(),
+UNITS = [QVector(), QVectorOfEachMeasure(), AdaptedTreeProbabilityOfEachSampler(), Tiling(), Telescoping(), Intensity1d(), IntensityNd(), JumpVector(), InversionProbability(), AdjacentImpliesTransitive(),
          TruncatedInterval(), TruncatedIntegrate(), TruncatedDensity(), AdaptedTree1dInit(), Neighbours(), ModelTruncate(), ModelTruncateMass()]
 ASSUMPTIONS = ["A1: floats are mathematical reals", "A6: the model's integrate(a,b) is an additive non-negative interval function MU (established per model in C09)",
                "the grid is well formed (C13's postcondition is this contract's precondition)"]
